@@ -94,6 +94,8 @@ type Handle struct {
 	Counted     bool // handed to the session as a real entry
 	Exempt      bool // release accounting does not apply (see sessfs: failed create-directory corner)
 
+	Origin    *Call // the call that created this handle
+
 	releases  int32
 	ReleaseBy string
 	inCall    int32
@@ -151,9 +153,9 @@ func (fs *FS) Violations() []string {
 	return append([]string(nil), fs.viol...)
 }
 
-func (fs *FS) newHandle(n *Node, counted bool) *Handle {
+func (fs *FS) newHandle(n *Node, counted bool, origin *Call) *Handle {
 	fs.nextH++
-	h := &Handle{ID: fs.nextH, Node: n, fs: fs, Counted: counted, Placeholder: !counted}
+	h := &Handle{ID: fs.nextH, Node: n, fs: fs, Counted: counted, Placeholder: !counted, Origin: origin}
 	fs.Handles = append(fs.Handles, h)
 	return h
 }
@@ -240,13 +242,13 @@ func (fs *FS) Auth(ctx context.Context, uname, aname string) (p9p.AuthFile, erro
 }
 
 func (fs *FS) Attach(ctx context.Context, uname, aname string, af p9p.AuthFile) (p9p.Dirent, error) {
-	_, f := fs.enter("attach", nil, ctx, nil)
+	c, f := fs.enter("attach", nil, ctx, nil)
 	if f != nil && f.Err != nil {
 		return nil, f.Err
 	}
 	fs.mu.Lock()
 	defer fs.mu.Unlock()
-	return fs.newHandle(fs.Root, true), nil
+	return fs.newHandle(fs.Root, true, c), nil
 }
 
 // ---- p9p.Dirent
@@ -281,7 +283,7 @@ func Resolve(n *Node, names []string) []*Node {
 }
 
 func (h *Handle) Walk(ctx context.Context, names ...string) ([]p9p.Qid, p9p.Dirent, error) {
-	_, f := h.fs.enter("walk", h, ctx, names)
+	c, f := h.fs.enter("walk", h, ctx, names)
 	defer h.fs.leave(h)
 	if f != nil && f.Err != nil {
 		return nil, nil, f.Err
@@ -290,23 +292,23 @@ func (h *Handle) Walk(ctx context.Context, names ...string) ([]p9p.Qid, p9p.Dire
 	fs.mu.Lock()
 	defer fs.mu.Unlock()
 	if len(names) == 0 {
-		return nil, fs.newHandle(h.Node, true), nil
+		return nil, fs.newHandle(h.Node, true, c), nil
 	}
 	found := Resolve(h.Node, names)
 	if f != nil && f.Partial > 0 && f.Partial < len(found) {
 		found = found[:f.Partial]
 	}
 	if len(found) == 0 {
-		return nil, fs.newHandle(nil, false), p9p.ErrNotfound
+		return nil, fs.newHandle(nil, false, c), p9p.ErrNotfound
 	}
 	qids := make([]p9p.Qid, len(found))
 	for i, n := range found {
 		qids[i] = n.Qid()
 	}
 	if len(found) < len(names) {
-		return qids, fs.newHandle(nil, false), nil
+		return qids, fs.newHandle(nil, false, c), nil
 	}
-	return qids, fs.newHandle(found[len(found)-1], true), nil
+	return qids, fs.newHandle(found[len(found)-1], true, c), nil
 }
 
 func (h *Handle) OpenDir(ctx context.Context) (p9p.ReadNext, error) {
@@ -358,7 +360,7 @@ func validName(name string) bool {
 }
 
 func (h *Handle) Create(ctx context.Context, name string, perm uint32, mode p9p.Flag) (p9p.Dirent, p9p.File, error) {
-	_, f := h.fs.enter("create", h, ctx, []string{name})
+	c, f := h.fs.enter("create", h, ctx, []string{name})
 	defer h.fs.leave(h)
 	if f != nil && f.Err != nil {
 		return nil, nil, f.Err
@@ -379,7 +381,7 @@ func (h *Handle) Create(ctx context.Context, name string, perm uint32, mode p9p.
 	}
 	n := fs.addNode(h.Node, name, perm&p9p.DMDIR != 0)
 	n.Mode = perm & 0777
-	nh := fs.newHandle(n, true)
+	nh := fs.newHandle(n, true, c)
 	nh.file = &OpenFile{H: nh}
 	fs.mu.Unlock()
 	h.release("create") // a successful create consumes the parent handle
